@@ -14,14 +14,14 @@ P = {
  "C02": ("MIC acceptance, structural decoding and every accessor equal an independent reference decoder for every byte string up to 255 B; decryption (key by FPort, counter reconstruction, plaintext) and JoinAccept decoding for frames up to 40 B; failed checked decoding leaves the buffer untouched; decrypting twice restores the ciphertext.", KANI + "; crypto as logged uninterpreted functions", UF, "3/C02"),
  "C03": ("All frame parsers, view accessors and the six MAC-command iterators are panic-free and terminating on every byte string within the length bounds.", KANI, "", "3/C03"),
  "C04": ("No panic / no non-termination of the MAC, region and front-end code on any received bytes or authentic command field values, one inductive step from an arbitrary invariant-satisfying state.", KANI + "; inductive step over an explicit representation invariant; RNG as nondeterministic / enumerating stub", UF, "3/C04"),
- "C05": ("Downlink acceptance is exactly 'authentic under the reconstructed 32-bit counter and fresh', for all counter pairs and all frames within the size bound.", KANI + "; crypto as logged uninterpreted functions", UF, "3/C05"),
- "C06": ("Uplink counter use and advancement: one-step facts of the MAC (counter on the wire / in MIC and keystream blocks, advance by exactly one or SessionExpired at 0xFFFFFFFF) plus fault-position-symbolic runs of both front-ends from an arbitrary counter: a frame handed to the radio has consumed its counter, or session expiry has been reported, whenever the device accepts the next send; with the non-default multicast feature also for the answer uplink the async device transmits itself (quick) and for multicast downlinks ending a transaction (thorough).", KANI + "; radio fault position symbolic; MAC contract stubs in front-end harnesses (installed in the source for the native replay)", UF, "3/C06, 9.11"),
- "C07": ("A frame answered with NoUpdate leaves session, configuration and region state bit-identical (1-safety frame condition implying the 2-safety twin property).", KANI + "; frame condition on an arbitrary symbolic pre-state", UF, "3/C07"),
+ "C05": ("Downlink acceptance is exactly 'authentic under the reconstructed 32-bit counter and fresh', for all counter pairs and all frames within the size bound. Front-end half: both device front-ends hand the MAC the parameters (maximum size) of the window the frame was received in.", KANI + "; crypto as logged uninterpreted functions", UF, "3/C05"),
+ "C06": ("Uplink counter use and advancement: one-step facts of the MAC (counter on the wire / in MIC and keystream blocks, advance by exactly one or SessionExpired at 0xFFFFFFFF) plus fault-position-symbolic runs of both front-ends from an arbitrary counter: a frame handed to the radio has consumed its counter, or session expiry has been reported, whenever the device accepts the next send; with the non-default multicast feature also for the answer uplink the async device transmits itself (quick) and for multicast downlinks ending a transaction (thorough). Class C: rxc_listen and listening between the windows (futures::select decided both ways) consume one counter per accepted downlink and report expiry instead of wrapping; certification-feature answer uplinks consume their counter.", KANI + "; radio fault position symbolic; MAC contract stubs in front-end harnesses (installed in the source for the native replay)", UF, "3/C06, 9.11"),
+ "C07": ("A frame answered with NoUpdate leaves session, configuration and region state bit-identical (1-safety frame condition implying the 2-safety twin property). Front-ends: a frame the MAC does not accept keeps the window / the Class C listening going with nothing else changed, also while a Class C device waits for its join windows; certification-feature build of the handle_rx step.", KANI + "; frame condition on an arbitrary symbolic pre-state", UF, "3/C07"),
  "C08": ("MAC command answers and effects equal an executable reference of LoRaWAN 1.0.x section 5 for every payload value of the enumerated CID sequences, per region.", KANI + "; CID sequence concrete, all payload bytes symbolic", UF, "3/C08"),
  "C09": ("Every TX configuration produced from an invariant-satisfying channel-plan state is on an enabled in-band channel (independent RP002 band and TXPower tables per region) with legal DR/power, for every RNG stream; selection terminates; quick tier EU868/US915 plus per-region tables and the AU915 join, thorough tier every region.", KANI + "; inductive invariant + nondeterministic/enumerating RNG stubs", "", "3/C09"),
- "C10": ("RX1/RX2 frequency, data rate and delay equal the regional reference tables for all DR x offset x override values in every region; window timing (delay + TX end - lead time, RX2 one second later) and the binding of window parameters to the uplink checked for both front-ends for all inputs in range.", KANI, "", "3/C10"),
- "C11": ("JoinRequest bytes and the Join-Accept handling (session derivation, counters, settings application) equal the reference for all JoinAccept contents.", KANI + "; crypto as logged uninterpreted functions", UF, "3/C11"),
- "C12": ("One-step refinement of FCtrl bits and ADR back-off against an executable reference model for all counter values, data rates and regions.", KANI + "; one inductive step against a reference model", UF, "3/C12"),
+ "C10": ("RX1/RX2 frequency, data rate and delay equal the regional reference tables for all DR x offset x override values in every region; window timing (delay + TX end - lead time, RX2 one second later) and the binding of window parameters to the uplink checked for both front-ends for all inputs in range. Class C: continuous listening between and after the windows uses the RX2 parameters (between_windows / window_complete / rxc_listen, one call each); async join windows at 5 s / 6 s.", KANI, "", "3/C10"),
+ "C11": ("JoinRequest bytes and the Join-Accept handling (session derivation, counters, settings application) equal the reference for all JoinAccept contents. Async join procedure: joined iff the MAC saw a valid JoinAccept, 'no join accept' iff both windows closed without one, a frame that is not a JoinAccept never ends the attempt.", KANI + "; crypto as logged uninterpreted functions", UF, "3/C11"),
+ "C12": ("One-step refinement of FCtrl bits and ADR back-off against an executable reference model for all counter values, data rates and regions. set_adr(false) restarts the count and changes nothing else (both front-ends); ABP/restored sessions start from the given state.", KANI + "; one inductive step against a reference model", UF, "3/C12"),
  "C13": ("For every operation of a generated byte specification (24 SX126x operations incl. SX1261/SX1262/STM32WL variants; 16 SX1276 and 13 SX1272 operations) the driver's SPI traffic equals what Semtech's SWL2001 reference C code produces for every parameter value: SX126x byte for byte on the wire, SX127x by the register-file / FIFO outcome from arbitrary prior register contents (the drivers factor register accesses differently from the reference); PLL word kernels of SX126x and SX127x equal the reference kernels for every frequency 137-1020 MHz. Quick tier: the operations with few register accesses; thorough tier: all (SX1276 modulation parameters, IRQ/start flows). One recorded difference (F-C13-2).", KANI + " on lora-phy + CBMC 6.11 directly on the SWL2001 C sources (both sides against one generated specification, lib/c13gen.py); PLL word: z3 5.1 + cvc5 on SMT-LIB translations of the rustc MIR (mir2smt) and of clang's LLVM IR of the C kernel (ll2smt), both validated against the compiled functions; counterexamples of generated harnesses are rebuilt as native tests from the CBMC trace", "SX127x operations outside the specification (reception flow, CAD completion, RSSI) and the LR1110 are outside the claim. ", "9.5, 9.10"),
  "C14": ("One API call of LoRa<ModelChip> from an arbitrary state inside the driver/chip coupling invariant, with up to two faults at symbolic chip-call positions and a symbolic IRQ script, stays inside the invariant (also when the call fails), never commands a sleeping chip without wake-up, never starts TX/RX/CAD with something unprogrammed since the last cold start, leaves chip and driver in standby after a failed or timed-out operation; wrong-mode calls are refused without chip commands.", KANI + "; inductive step over a trait-level chip model (invariant asserted after faulted calls too)", "The chip model assumes the chip is awake while an interrupt is processed. ", "3/C14, 9.12"),
  "C15": ("The LDRO decision of the airtime calculator and of every driver equals 2^SF/BW >= 16.38 ms for all 80 (SF,BW) pairs; the bit the chip is left with after modulation and packet parameters equals the decision (SX126x command byte; SX1276/SX1272 on a register-file chip model with arbitrary prior contents).", KANI, "", "3/C15"),
@@ -29,7 +29,7 @@ P = {
  "C17": ("Programmed PLL word / PA settings / symbol timeout / RSSI-SNR conversions decode to the request for all argument values; the LoRaWAN adapter's RX timeout covers 12.25 symbols plus the requested delay for all 80 (SF,BW) pairs and delays up to 1000 ms.", "z3 + cvc5 on an SMT-LIB translation of the rustc MIR of the PLL kernels (mir2smt), " + KANI + " for the rest", "", "3/C17"),
  "C18": ("Packet fetch never overruns: for all reported lengths/offsets/status and the listed buffer sizes the result is Ok(n<=buf) with exactly the chip bytes, or Err; no panic.", KANI + "; SPI mock answering arbitrary bytes", "", "3/C18"),
  "C19": ("Builder->parser round trip for every command that has a builder in the LoRaWAN MAC, multicast remote-setup and certification sets with all field values symbolic; out-of-range values refused or truncated without panic or spill; text forms round-trip for all values.", KANI, "", "3/C19"),
- "C20": ("Session serde round trip field by field for an arbitrary Session via a schema-driven serde back end; malformed value streams give Err or a panic-free session.", KANI + "; schema-driven serde back end written in the harness", "serde_json text layer is outside the claim. ", "3/C20"),
+ "C20": ("Session serde round trip field by field for an arbitrary Session via a schema-driven serde back end; malformed value streams give Err or a panic-free session. set_session/new_with_session/get_session hand the session over unchanged in every field.", KANI + "; schema-driven serde back end written in the harness", "serde_json text layer is outside the claim. ", "3/C20"),
 }
 
 def main():
